@@ -33,6 +33,11 @@ SCENARIOS = {
     'registered_default_permissive': dict(regs=[('foo', '!'), ('x', 'role:a')], main_old={'default': '@', 'x': 'role:a'},
                                           main_new={'default': '@', 'x': 'role:b'}, dir_old={'y': '!'}, dir_new={'y': '!'},
                                           query='foo'),
+    # the same without any file in policy.d: nothing after the main-file swap touches the rule store except the
+    # re-application of the registered defaults (safe today for the same reason)
+    'registered_default_no_dir_files': dict(regs=[('foo', '!'), ('x', 'role:a'), ('bar', 'role:zz')],
+                                            main_old={'default': '@', 'x': 'role:a'}, main_new={'default': '@', 'x': 'role:b'},
+                                            dir_old=None, dir_new=None, query='foo', no_model=True),
     # both threads evaluate a rule built from references; the files do not change the referenced rules
     'alias_evaluation': dict(regs=[('x', 'role:a')], main_old={'admin': 'role:a', 'owner': 'role:a or role:b', 'x': 'role:a',
                                                               'both': 'rule:admin and rule:owner and not rule:nobody',
@@ -58,7 +63,8 @@ def setup(sc):
         main_old.pop('p', None)
         main_new.pop('p', None)
     _w(os.path.join(d, 'policy.yaml'), json.dumps(main_old), 1000)
-    _w(os.path.join(d, 'policy.d', 'a.yaml'), json.dumps(sc['dir_old']), 1000)
+    if sc['dir_old'] is not None:
+        _w(os.path.join(d, 'policy.d', 'a.yaml'), json.dumps(sc['dir_old']), 1000)
     os.utime(os.path.join(d, 'policy.d'), (1000, 1000))
     conf = cfg.ConfigOpts()
     conf(args=['--config-dir', d], project='opverif20', default_config_files=[])
@@ -111,8 +117,9 @@ def run(ctx, rep):
         outs, old, new, final, counts, _ = one(sc, [(0, None), (1, None)])     # sequential: A then B
         nlines = counts[0]
         scheds = [[(0, k), (1, None), (0, None)] for k in range(1, nlines + 1)]
-        if ctx.thorough:
-            step = max(1, nlines // 40)
+        if ctx.thorough or name == 'alias_evaluation':
+            # two context switches (quick: a coarser grid on one scenario, enough to meet the iteration finding F10-iteration)
+            step = max(1, nlines // (40 if ctx.thorough else 20))
             for k in range(1, nlines + 1, step):
                 for j in range(1, nlines + 1, step):
                     scheds.append([(0, k), (1, j), (0, None), (1, None)])
@@ -120,12 +127,19 @@ def run(ctx, rep):
         for segs in scheds:
             outs, old, new, final, counts, pauses = one(sc, segs)
             total_sched += 1
-            in_load = bool(pauses) and 'load_rules' in pauses[0][1]
+            # a thread is the "reloader" if it was preempted inside load_rules, else a "bystander" (it ran its own
+            # load step without interruption); the window is open if any thread was preempted inside load_rules
+            in_load = any('load_rules' in p[1] for p in pauses)
+            role = {}
+            for p in pauses:
+                if 'load_rules' in p[1]:
+                    role[p[0]] = 'reloader'
             where = pauses[0][1][-1] if pauses and pauses[0][1] else '-'
             for tid, o in enumerate(outs):
                 seen.add(o)
                 if o not in (old, new):
-                    rep.fail('c20:%s|thread=%s|paused_in_load_rules=%s|decision=%s' % (name, 'AB'[tid], in_load, o),
+                    rep.fail('c20:%s|thread=%s|paused_in_load_rules=%s|decision=%s'
+                             % (name, role.get(tid, 'bystander'), in_load, o),
                              'scenario %s: old policy decides %s, new policy decides %s, but thread %s decided %s when thread A '
                              'was preempted after %d line(s) inside %s (stack %s)'
                              % (name, old, new, 'AB'[tid], o, segs[0][1], where, pauses[0][1] if pauses else []),
